@@ -94,7 +94,13 @@ func c10World(t *testing.T, r *simcore.Run) any {
 		mode = "sampled"
 		for k := 0; k < c10PerRun; k++ {
 			c := mcase{onResp: tp.Bool(1, 2, "onresp")}
-			switch tp.Pick([]uint64{6, 4, 1, 1, 1, 2, 2, 3, 1, 2, 2, 2}, "kind") {
+			switch tp.Pick([]uint64{6, 4, 1, 1, 1, 2, 2, 3, 1, 2, 2, 2, 2}, "kind") {
+			case 12:
+				// a longer nonce: the nonce length word raised, as many bytes inserted behind the
+				// sixteen genuine ones, the field's length raised accordingly - any change to the
+				// nonce has to be refused, also one that leaves its first sixteen bytes alone
+				c.kind = "nonce-lengthened"
+				c.val = []int{4, 8, 16}[tp.Intn(3, "nonceplus")]
 			case 11:
 				// fields slipped in right in front of the authenticator, whose own (unauthenticated)
 				// length word is raised by as much: what the authenticator covers is what precedes
@@ -276,6 +282,13 @@ func c10World(t *testing.T, r *simcore.Run) any {
 				case "genuine":
 					mut = append([]byte(nil), g.Payload...)
 					desc = "request replayed unmodified"
+				case "nonce-lengthened":
+					mut = c10LengthenNonce(g.Payload, c.val)
+					if mut == nil {
+						continue
+					}
+					desc = fmt.Sprintf("request whose authenticator nonce is lengthened by %d bytes behind the genuine sixteen", c.val)
+					r.Probe("nonce-lengthened")
 				case "inserted-before-authenticator":
 					mut = c10InsertBeforeAuth(g.Payload, c.val, 0x0304)
 					if mut == nil {
@@ -403,6 +416,14 @@ func c10World(t *testing.T, r *simcore.Run) any {
 					}
 					skip = true
 					return nil, "", false
+				case "nonce-lengthened":
+					mut := c10LengthenNonce(g, c.val)
+					if mut == nil {
+						skip = true
+						return nil, "", false
+					}
+					r.Probe("nonce-lengthened")
+					return mut, fmt.Sprintf("the genuine response with its authenticator nonce lengthened by %d bytes behind the genuine sixteen", c.val), true
 				case "inserted-before-authenticator":
 					mut := c10InsertBeforeAuth(g, 1, 0x0104)
 					if mut == nil {
@@ -563,6 +584,33 @@ func init() {
 // c10InsertBeforeAuth returns p with n extension fields of the given type (36 bytes each)
 // inserted in front of the authenticator field and the authenticator's length word raised
 // by the inserted size; nil if p has no authenticator.
+// c10LengthenNonce returns p with k (a multiple of four) random bytes inserted behind the
+// sixteen nonce bytes of its authenticator field, nonce length and field length raised by k.
+func c10LengthenNonce(p []byte, k int) []byte {
+	for _, f := range ntsWalk(p) {
+		if f.typ != 0x0404 || len(f.body) < 4+16 {
+			continue
+		}
+		nl := int(f.body[0])<<8 | int(f.body[1])
+		if nl != 16 {
+			return nil
+		}
+		at := f.off + 4 + 4 + 16
+		extra := make([]byte, k)
+		rand.Read(extra)
+		out := append([]byte(nil), p[:at]...)
+		out = append(out, extra...)
+		out = append(out, p[at:]...)
+		l := int(out[f.off+2])<<8 | int(out[f.off+3])
+		l += k
+		out[f.off+2], out[f.off+3] = byte(l>>8), byte(l)
+		nl += k
+		out[f.off+4], out[f.off+5] = byte(nl>>8), byte(nl)
+		return out
+	}
+	return nil
+}
+
 func c10InsertBeforeAuth(p []byte, n int, typ uint16) []byte {
 	for _, f := range ntsWalk(p) {
 		if f.typ != 0x0404 {
